@@ -143,7 +143,14 @@ impl<'de> JsonInput<'de> for &'de FastStr {
     }
 
     fn to_json_slice(&self) -> JsonSlice<'de> {
-        JsonSlice::FastStr((**self).clone())
+        let cloned = (**self).clone();
+        // cloning an inlined FastStr copies its bytes: strings borrowed for 'de from the reader
+        // would then point into a copy that dies with the reader, so borrow the caller's bytes
+        if cloned.as_bytes().as_ptr() != (*self).as_bytes().as_ptr() {
+            JsonSlice::Raw((*self).as_bytes())
+        } else {
+            JsonSlice::FastStr(cloned)
+        }
     }
 
     fn from_subset(&self, sub: &'de [u8]) -> JsonSlice<'de> {
